@@ -52,6 +52,7 @@ type parser struct {
 	tokenQueue    []token            // token queue that the lexer tokenized
 	variableNames map[string]bool    // variable names in a message to check duplicates
 	ellipsisCount int                // ellipsis count in a message
+	skipSizeCheck bool               // the item just parsed is a placeholder for an erroneous item; don't check its size
 	messages      []*ast.DataMessage // parsed messages
 	errors        []parseError       // parsing errors
 	warnings      []parseError       // parsing warnings
@@ -282,7 +283,9 @@ func (p *parser) parseDataItem() (item ast.ItemNode, ok bool) {
 		return ast.NewEmptyItemNode(), false
 	}
 
-	if item.Size() >= 0 {
+	if p.skipSizeCheck {
+		p.skipSizeCheck = false
+	} else if item.Size() >= 0 {
 		// (ASCIINode with variable).Size() == -1
 		p.checkDataItemSizeError(item.Size(), sizeStart, sizeEnd, tokenDataItemSize)
 	}
@@ -447,7 +450,8 @@ func (p *parser) parseASCII(minLength, maxLength int) (item ast.ItemNode, ok boo
 
 			if _, ok := p.variableNames[t.val]; ok {
 				p.errorf(t, "duplicated variable name %q", t.val)
-				return ast.NewASCIINode(strings.Repeat("*", minLength)), true
+				p.skipSizeCheck = true
+				return ast.NewASCIINode(""), true
 			} else {
 				p.variableNames[t.val] = true
 				return ast.NewASCIINodeVariable(t.val, minLength, maxLength), true
